@@ -54,11 +54,12 @@ mutual
     | 0, _, _, _ => .error (.other "RecursionError")
     | _ + 1, es, _, [] => .ok (es, [])
     | fuel + 1, es, σ, (k, v) :: rest =>
-      match evalVal fuel es σ k with
+      -- `y[deepcopy(key)] = deepcopy(value)`: Python evaluates the right-hand side first
+      match evalVal fuel es σ v with
       | .error e => .error e
-      | .ok (es1, k') => match evalVal fuel es1 σ v with
+      | .ok (es1, v') => match evalVal fuel es1 σ k with
         | .error e => .error e
-        | .ok (es2, v') => match evalDict fuel es2 σ rest with
+        | .ok (es2, k') => match evalDict fuel es2 σ rest with
           | .error e => .error e
           | .ok (es3, rest') => .ok (es3, (k', v') :: rest')
   def evalKws : Nat → State → Scope → AList String Val → Except Err (State × AList String Val)
